@@ -43,6 +43,10 @@ type Case struct {
 	Check  string            `json:"check"` // how to read the choice off the output
 	Aux    map[string]string `json:"aux"`
 	Note   string            `json:"note,omitempty"`
+	// approve planning path: the device side comes from a simulated device instead of a file
+	Session  string `json:"session,omitempty"`  // "", "cisco" (simulate-cisco.pl), "nsx", "panos" (HTTPS simulator of the harness)
+	Scenario string `json:"scenario,omitempty"` // cisco: scenario file of simulate-cisco.pl
+	Approve  bool   `json:"approve,omitempty"`  // false: drc -C (compare), true: drc (approve)
 }
 
 type triple struct {
@@ -92,11 +96,22 @@ var envFailures atomic.Int64
 
 // runCase runs the real binary c.Runs times; returns the distinct triples in order of first appearance.
 func runCase(drc, base string, idx int, c *Case) (distinct []triple, counts []int) {
-	dir := filepath.Join(base, fmt.Sprintf("case%05d", idx))
+	return runCaseN(drc, base, idx, 0, c.Runs, c)
+}
+
+// runCaseN: `runs` runs of pass number `pass` (passes of one case may run at the same time).
+func runCaseN(drc, base string, idx, pass, runs int, c *Case) (distinct []triple, counts []int) {
+	if c.Session != "" {
+		save := c.Runs
+		c.Runs = runs
+		defer func() { c.Runs = save }()
+		return runSessionCase(drc, base, idx, c)
+	}
+	dir := filepath.Join(base, fmt.Sprintf("case%05d-%d", idx, pass))
 	os.MkdirAll(dir, 0755)
 	WriteFiles(dir, c.Files)
 	defer os.RemoveAll(dir)
-	for i := 0; i < c.Runs; i++ {
+	for i := 0; i < runs; i++ {
 		t := runOnce(drc, dir, c.Args)
 		// environment failure (the process could not be started, or was killed by a signal: exit -1):
 		// not an observation of drc. Retry serially after a pause; if it persists the run is dropped
@@ -153,6 +168,38 @@ func (g *gen) name(prefix string) string {
 	}
 }
 
+// arrange orders the entries of a map that the code under test fills in this order. The Go runtime
+// visits a map of at most 8 entries in insertion order starting at a RANDOM SLOT (0..7); with two tied
+// entries in adjacent slots the second one comes first in only 1 of 8 processes. With k ≤ 4 tied entries,
+// arrange (3 times out of 4) pads the map to exactly 8 entries and puts the tied ones at slots
+// 0, 8/k, 2·8/k, …: each of them is then reached first in 8/k of 8 processes (2-way tie: 1/2 : 1/2).
+// Otherwise: random order.
+func arrange[T any](r *RNG, tied, pads []T, mkPad func() T) []T {
+	k := len(tied)
+	if k >= 2 && k <= 4 && mkPad != nil && r.Chance(75) {
+		for len(pads) < 8-k {
+			pads = append(pads, mkPad())
+		}
+		pads = pads[:8-k]
+		out := make([]T, 0, 8)
+		step := 8 / k
+		ti, pi := 0, 0
+		for slot := 0; slot < 8; slot++ {
+			if ti < k && slot == ti*step {
+				out = append(out, tied[ti])
+				ti++
+			} else {
+				out = append(out, pads[pi])
+				pi++
+			}
+		}
+		return out
+	}
+	all := append(append([]T(nil), tied...), pads...)
+	Shuffle(r, all)
+	return all
+}
+
 func newGen(r *RNG) *gen { return &gen{r: r, used: map[string]bool{}} }
 
 func hostOf(id int) string { return fmt.Sprintf("10.%d.%d.%d", 1+id/60000, (id/250)%250, 1+id%250) }
@@ -200,7 +247,7 @@ func genASAGroups(r *RNG, k, extraLines int) *Case {
 	for i := 0; i < k; i++ {
 		groups = append(groups, grp{g.name("g"), 0, elems})
 	}
-	for i := r.Intn(4); i > 0; i-- { // distractors: other elements
+	mkPad := func() grp { // distractor: other elements
 		var e []int
 		for {
 			e = pickIDs(r, 1+r.Intn(4))
@@ -208,12 +255,16 @@ func genASAGroups(r *RNG, k, extraLines int) *Case {
 				break
 			}
 		}
-		groups = append(groups, grp{g.name("g"), 0, e})
+		return grp{g.name("g"), 0, e}
+	}
+	var pads []grp
+	for i := r.Intn(4); i > 0; i-- {
+		pads = append(pads, mkPad())
 	}
 	if r.Chance(40) { // distractor: other type of group
-		groups = append(groups, grp{g.name("p"), 1, nil})
+		pads = append(pads, grp{g.name("p"), 1, nil})
 	}
-	Shuffle(r, groups)
+	groups = arrange(r, groups, pads, mkPad)
 	var dev, spoc strings.Builder
 	dev.WriteString("interface Ethernet0/0\n nameif inside\n")
 	for _, gr := range groups {
@@ -249,7 +300,7 @@ func genASAGroups(r *RNG, k, extraLines int) *Case {
 	return &Case{
 		Family: "asa_groups", Pred: "asa_identical_unused_object_groups_on_device",
 		Files: map[string]string{"dev": dev.String(), "spoc": spoc.String(), "spoc.info": asaInfo},
-		Args:  []string{"-q", "dev", "spoc"}, Ties: k, Check: "fg",
+		Args:  []string{"dev", "spoc"}, Ties: k, Check: "fg",
 		Aux: map[string]string{"entries": strings.Join(entries, "|"), "target": idsStr(elems), "n": strconv.Itoa(nNew)},
 	}
 }
@@ -311,7 +362,7 @@ func genNSXGroups(r *RNG, k int) *Case {
 		groups = append(groups, mk(id, elems))
 		entries = append(entries, fmt.Sprintf("%s;0;0;%s", id, idsStr(elems)))
 	}
-	for i := r.Intn(3); i > 0; i-- {
+	mkPad := func() nsxGrp {
 		var e []int
 		for {
 			e = pickIDs(r, 1+r.Intn(3))
@@ -320,10 +371,14 @@ func genNSXGroups(r *RNG, k int) *Case {
 			}
 		}
 		id := "Netspoc-" + g.name("g")
-		groups = append(groups, mk(id, e))
 		entries = append(entries, fmt.Sprintf("%s;0;0;%s", id, idsStr(e)))
+		return mk(id, e)
 	}
-	Shuffle(r, groups)
+	var pads []nsxGrp
+	for i := r.Intn(3); i > 0; i-- {
+		pads = append(pads, mkPad())
+	}
+	groups = arrange(r, groups, pads, mkPad)
 	dev := nsxCfg{groups, []nsxPol{{"Netspoc-v1", "GatewayPolicy", []nsxRule{rule("r1", "10.9.9.9", "10.8.8.8")}}}, []any{}}
 	spoc := nsxCfg{[]nsxGrp{mk("Netspoc-g0", elems)}, []nsxPol{{"Netspoc-v1", "GatewayPolicy",
 		[]nsxRule{rule("r1", "10.9.9.9", "10.8.8.8"), rule("r2", nsxGroupPath+"Netspoc-g0", "10.8.8.8")}}}, []any{}}
@@ -332,7 +387,7 @@ func genNSXGroups(r *RNG, k int) *Case {
 	return &Case{
 		Family: "nsx_groups", Pred: "nsx_identical_unused_groups_on_device",
 		Files: map[string]string{"dev": string(d), "spoc": string(s), "spoc.info": `{"model":"NSX"}`},
-		Args:  []string{"-q", "dev", "spoc"}, Ties: k, Check: "nsx",
+		Args:  []string{"dev", "spoc"}, Ties: k, Check: "nsx",
 		Model: []string{fmt.Sprintf("fg\t0\t%s\t%s", idsStr(elems), strings.Join(entries, "|"))},
 	}
 }
@@ -373,10 +428,16 @@ func genCryptoPeers(r *RNG, k int, abort bool) *Case {
 		}
 		ents = append(ents, ent{nextSeq(), peer, pfsGroups[(i+perm)%len(pfsGroups)]})
 	}
-	for i := r.Intn(3); i > 0; i-- { // other peers
-		ents = append(ents, ent{nextSeq(), fmt.Sprintf("10.0.1.%d", 1+len(ents)), "group5"})
+	npad := 0
+	mkPad := func() ent { // other peers
+		npad++
+		return ent{nextSeq(), fmt.Sprintf("10.0.1.%d", npad), "group5"}
 	}
-	Shuffle(r, ents)
+	var pads []ent
+	for i := r.Intn(3); i > 0; i-- {
+		pads = append(pads, mkPad())
+	}
+	ents = arrange(r, ents, pads, mkPad)
 	for _, e := range ents {
 		if e.peer != "" {
 			fmt.Fprintf(&spoc, "crypto map cm %d set peer %s\n", e.seq, e.peer)
@@ -393,7 +454,7 @@ func genCryptoPeers(r *RNG, k int, abort bool) *Case {
 	c := &Case{
 		Family: "crypto_peers", Pred: "crypto_map_entries_with_equal_peer_in_target",
 		Files: map[string]string{"dev": dev.String(), "spoc": spoc.String(), "spoc.info": asaInfo},
-		Args:  []string{"-q", "dev", "spoc"}, Ties: k, Check: "peer", Aux: aux,
+		Args:  []string{"dev", "spoc"}, Ties: k, Check: "peer", Aux: aux,
 		Model: []string{"peer\t" + strings.Join(entries, "|")},
 	}
 	if abort {
@@ -442,7 +503,7 @@ func genDangling(r *RNG, k int) *Case {
 	return &Case{
 		Family: "dangling_refs", Pred: "several_dangling_references_in_one_config",
 		Files: map[string]string{"dev": dev.String(), "spoc": "interface Ethernet0/1\n nameif outside\n", "spoc.info": asaInfo},
-		Args:  []string{"-q", "dev", "spoc"}, Ties: k, Check: "stderr-prefix",
+		Args:  []string{"dev", "spoc"}, Ties: k, Check: "stderr-prefix",
 		Aux:   map[string]string{"prefix": "ERROR>>> While reading file dev: "},
 		Model: []string{"first2\t" + strings.Join(entries, "|")},
 	}
@@ -460,6 +521,14 @@ func genIPTOptions(r *RNG, k int) *Case {
 	n := k + r.Intn(len(all)-k+1)
 	opts := all[:n]
 	differ := map[int]bool{}
+	spaced := k <= 4 && r.Chance(75)
+	if spaced {
+		// all 8 options, the differing ones at slots 0, 8/k, … of the option map (see arrange)
+		n, opts = len(all), all
+		for i := 0; i < k; i++ {
+			differ[i*(8/k)] = true
+		}
+	}
 	for len(differ) < k {
 		differ[r.Intn(n)] = true
 	}
@@ -479,7 +548,9 @@ func genIPTOptions(r *RNG, k int) *Case {
 	for i := range idx {
 		idx[i] = i
 	}
-	Shuffle(order, idx)
+	if !spaced {
+		Shuffle(order, idx)
+	}
 	for _, i := range idx {
 		o := opts[i]
 		vb := o.a
@@ -496,7 +567,7 @@ func genIPTOptions(r *RNG, k int) *Case {
 	return &Case{
 		Family: "iptables_options", Pred: "iptables_rule_differs_in_several_options",
 		Files: map[string]string{"dev": dev.String(), "spoc": spoc.String(), "spoc.info": `{"model":"Linux"}`},
-		Args:  []string{"-q", "dev", "spoc"}, Ties: k, Check: "opt",
+		Args:  []string{"dev", "spoc"}, Ties: k, Check: "opt",
 		Aux:   map[string]string{"rule": strconv.Itoa(nEqual)},
 		Model: []string{"opt\t" + strings.Join(ea, "|") + "\t" + strings.Join(eb, "|")},
 	}
@@ -568,7 +639,7 @@ func genLinuxRedefine(r *RNG, k int) *Case {
 	return &Case{
 		Family: "linux_raw_redefine", Pred: "linux_raw_redefines_several_chains",
 		Files: map[string]string{"dev": dev, "dev.raw": raw, "spoc": dev, "spoc.info": `{"model":"Linux"}`},
-		Args:  []string{"-q", "dev", "spoc"}, Ties: k, Check: "stderr-prefix", Aux: map[string]string{"prefix": "ERROR>>> "},
+		Args:  []string{"dev", "spoc"}, Ties: k, Check: "stderr-prefix", Aux: map[string]string{"prefix": "ERROR>>> "},
 		Model: []string{"first\t" + strings.Join(entries, "|")},
 	}
 }
@@ -603,7 +674,7 @@ func genRawAbort(r *RNG, variant int) *Case {
 	return &Case{
 		Family: "asa_raw_abort", Pred: "raw_file_with_several_unsupported_commands",
 		Files: map[string]string{"dev": base, "dev.raw": raw.String(), "spoc": base, "spoc.info": asaInfo},
-		Args:  []string{"-q", "dev", "spoc"}, Ties: ties, Check: "stderr-prefix", Aux: map[string]string{"prefix": "ERROR>>> "},
+		Args:  []string{"dev", "spoc"}, Ties: ties, Check: "stderr-prefix", Aux: map[string]string{"prefix": "ERROR>>> "},
 		Model: []string{"first\t" + strings.Join(entries, "|")},
 	}
 }
@@ -621,10 +692,12 @@ func genAAA(r *RNG, k int) *Case {
 	for i := 0; i < k; i++ {
 		l = append(l, srv{g.name("s"), true})
 	}
+	mkPad := func() srv { return srv{g.name("s"), false} }
+	var pads []srv
 	for i := r.Intn(3); i > 0; i-- {
-		l = append(l, srv{g.name("s"), false})
+		pads = append(pads, mkPad())
 	}
-	Shuffle(r, l)
+	l = arrange(r, l, pads, mkPad)
 	var entries []string
 	for _, s := range l {
 		m2 := "m1"
@@ -639,7 +712,7 @@ func genAAA(r *RNG, k int) *Case {
 	return &Case{
 		Family: "aaa_conflict", Pred: "several_aaa_servers_with_conflicting_ldap_attribute_map",
 		Files: map[string]string{"dev": dev.String(), "spoc": "interface Ethernet0/1\n nameif outside\n", "spoc.info": asaInfo},
-		Args:  []string{"-q", "dev", "spoc"}, Ties: k, Check: "stderr-prefix", Aux: map[string]string{"prefix": "ERROR>>> "},
+		Args:  []string{"dev", "spoc"}, Ties: k, Check: "stderr-prefix", Aux: map[string]string{"prefix": "ERROR>>> "},
 		Model: []string{"first\t" + strings.Join(entries, "|")},
 	}
 }
@@ -672,7 +745,7 @@ func genTunnelGroups(r *RNG, k int) *Case {
 	return &Case{
 		Family: "asa_tunnel_groups", Pred: "several_changed_anchors_of_one_prefix",
 		Files: map[string]string{"dev": dev.String(), "spoc": spoc.String(), "spoc.info": asaInfo},
-		Args:  []string{"-q", "dev", "spoc"}, Ties: k, Check: "lines", Aux: map[string]string{"stream": "stdout", "prefix": "tunnel-group "},
+		Args:  []string{"dev", "spoc"}, Ties: k, Check: "lines", Aux: map[string]string{"stream": "stdout", "prefix": "tunnel-group "},
 		Model: []string{"log\t" + strings.Join(entries, "|")},
 	}
 }
@@ -692,7 +765,7 @@ func genRawUnused(r *RNG, k int) *Case {
 	return &Case{
 		Family: "asa_raw_unused", Pred: "several_unused_objects_in_raw",
 		Files: map[string]string{"dev": base, "dev.raw": raw.String(), "spoc": base, "spoc.info": asaInfo},
-		Args:  []string{"-q", "dev", "spoc"}, Ties: k, Check: "lines", Aux: map[string]string{"stream": "stderr", "prefix": "WARNING>>> Ignoring unused"},
+		Args:  []string{"dev", "spoc"}, Ties: k, Check: "lines", Aux: map[string]string{"stream": "stderr", "prefix": "WARNING>>> Ignoring unused"},
 		Model: []string{"log\t" + strings.Join(entries, "|")},
 	}
 }
@@ -743,7 +816,7 @@ func genPanos(r *RNG, k int) *Case {
 	return &Case{
 		Family: "panos_groups", Pred: "panos_identical_address_groups_on_device",
 		Files: map[string]string{"dev": dev, "spoc": spoc, "spoc.info": `{"model":"PAN-OS"}`},
-		Args:  []string{"-q", "dev", "spoc"}, Ties: k, Check: "",
+		Args:  []string{"dev", "spoc"}, Ties: k, Check: "",
 	}
 }
 
@@ -807,7 +880,7 @@ func genRandomCisco(r *RNG) *Case {
 	return &Case{
 		Family: "random_cisco", Pred: "random_cisco_configuration",
 		Files: map[string]string{"dev": side(r.Fork(), dn, pool), "spoc": side(r.Fork(), sn, pool), "spoc.info": `{"model":"` + model + `"}`},
-		Args:  []string{"-q", "dev", "spoc"}, Ties: len(dn), Check: "",
+		Args:  []string{"dev", "spoc"}, Ties: len(dn), Check: "",
 	}
 }
 
@@ -828,7 +901,7 @@ func corpus() []*Case {
 		spoc := "object-group network gx0\n network-object host 1.1.1.1\n network-object host 2.2.2.2\n" +
 			"access-list inside extended permit ip host 9.9.9.9 any4\naccess-list inside extended permit ip object-group gx0 any4\naccess-group inside in interface inside\n"
 		l = append(l, &Case{Family: "asa_groups", Pred: "asa_identical_unused_object_groups_on_device", Note: "F-C16a",
-			Files: map[string]string{"dev": dev, "spoc": spoc, "spoc.info": asaInfo}, Args: []string{"-q", "dev", "spoc"}, Ties: 6,
+			Files: map[string]string{"dev": dev, "spoc": spoc, "spoc.info": asaInfo}, Args: []string{"dev", "spoc"}, Ties: 6,
 			Check: "fg", Aux: map[string]string{"entries": strings.Join(entries, "|"), "target": "1,2", "n": "1"}})
 	}
 	// F-C16b
@@ -844,7 +917,7 @@ func corpus() []*Case {
 		}
 		spoc += "crypto map cm interface outside\n"
 		l = append(l, &Case{Family: "crypto_peers", Pred: "crypto_map_entries_with_equal_peer_in_target", Note: "F-C16b",
-			Files: map[string]string{"dev": dev, "spoc": spoc, "spoc.info": asaInfo}, Args: []string{"-q", "dev", "spoc"}, Ties: 6,
+			Files: map[string]string{"dev": dev, "spoc": spoc, "spoc.info": asaInfo}, Args: []string{"dev", "spoc"}, Ties: 6,
 			Check: "peer", Aux: aux, Model: []string{"peer\t" + strings.Join(entries, "|")}})
 	}
 	// F-C16c
@@ -857,7 +930,7 @@ func corpus() []*Case {
 			entries = append(entries, fmt.Sprintf("access-list;%s;'%s' references unknown 'object-group g%s'", n, line, n))
 		}
 		l = append(l, &Case{Family: "dangling_refs", Pred: "several_dangling_references_in_one_config", Note: "F-C16c",
-			Files: map[string]string{"dev": dev, "spoc": asaBase, "spoc.info": asaInfo}, Args: []string{"-q", "dev", "spoc"}, Ties: 6,
+			Files: map[string]string{"dev": dev, "spoc": asaBase, "spoc.info": asaInfo}, Args: []string{"dev", "spoc"}, Ties: 6,
 			Check: "stderr-prefix", Aux: map[string]string{"prefix": "ERROR>>> While reading file dev: "},
 			Model: []string{"first2\t" + strings.Join(entries, "|")}})
 	}
@@ -866,7 +939,7 @@ func corpus() []*Case {
 		dev := "*filter\n:INPUT DROP\n-A INPUT -s 10.1.1.1 -d 10.2.2.2 -p tcp --dport 80 -i eth0 -j ACCEPT\nCOMMIT\n"
 		spoc := "*filter\n:INPUT DROP\n-A INPUT -s 10.1.1.9 -d 10.2.2.9 -p udp --dport 81 -i eth1 -j DROP\nCOMMIT\n"
 		l = append(l, &Case{Family: "iptables_options", Pred: "iptables_rule_differs_in_several_options", Note: "F-C16d",
-			Files: map[string]string{"dev": dev, "spoc": spoc, "spoc.info": `{"model":"Linux"}`}, Args: []string{"-q", "dev", "spoc"}, Ties: 6,
+			Files: map[string]string{"dev": dev, "spoc": spoc, "spoc.info": `{"model":"Linux"}`}, Args: []string{"dev", "spoc"}, Ties: 6,
 			Check: "opt", Aux: map[string]string{"rule": "0"},
 			Model: []string{"opt\t-s;10.1.1.1|-d;10.2.2.2|-p;tcp|--dport;80|-i;eth0|-j;ACCEPT\t-s;10.1.1.9|-d;10.2.2.9|-p;udp|--dport;81|-i;eth1|-j;DROP"}})
 	}
@@ -874,7 +947,7 @@ func corpus() []*Case {
 	{
 		raw := "crypto ca certificate map cm 10\n subject-name attr ea eq x\ntunnel-group-map default-group DefaultL2LGroup\nwebvpn\n certificate-group-map cm 10 DefaultWEBVPNGroup\n"
 		l = append(l, &Case{Family: "asa_raw_abort", Pred: "raw_file_with_several_unsupported_commands", Note: "F-C16f",
-			Files: map[string]string{"dev": asaBase, "dev.raw": raw, "spoc": asaBase, "spoc.info": asaInfo}, Args: []string{"-q", "dev", "spoc"}, Ties: 2,
+			Files: map[string]string{"dev": asaBase, "dev.raw": raw, "spoc": asaBase, "spoc.info": asaInfo}, Args: []string{"dev", "spoc"}, Ties: 2,
 			Check: "stderr-prefix", Aux: map[string]string{"prefix": "ERROR>>> "},
 			Model: []string{"first\ttunnel-group-map;Command 'tunnel-group-map' not supported in raw file|webvpn;Command 'webvpn' not supported in raw file"}})
 	}
@@ -1063,7 +1136,6 @@ func run(ctx *Ctx) *Result {
 		res.Disagree("build-drc", nil, err.Error(), "the real drc binary builds")
 		return res
 	}
-	runs := ctx.N(12, 60)
 
 	var cases []*Case
 	if ctx.Replay != "" {
@@ -1113,8 +1185,9 @@ func run(ctx *Ctx) *Result {
 			}
 		}
 		cases = append(cases, wideCases(ctx, r)...)
+		cases = append(cases, sessionCases(ctx, r)...)
 		for _, c := range cases {
-			c.Runs = runs
+			c.Runs = runsFor(ctx, c)
 		}
 	}
 
@@ -1122,10 +1195,51 @@ func run(ctx *Ctx) *Result {
 	type outcome struct {
 		distinct []triple
 		counts   []int
+		runs     int
 	}
 	outs := make([]outcome, len(cases))
+	var outMu sync.Mutex
+	merge := func(i int, d []triple, c []int, n int) {
+		outMu.Lock()
+		defer outMu.Unlock()
+		o := &outs[i]
+		o.runs += n
+		for j, t := range d {
+			found := false
+			for k := range o.distinct {
+				if o.distinct[k] == t {
+					o.counts[k] += c[j]
+					found = true
+					break
+				}
+			}
+			if !found {
+				o.distinct = append(o.distinct, t)
+				o.counts = append(o.counts, c[j])
+			}
+		}
+	}
+	// Time-boxed passes: pass 0 gives every case its base number of runs (at most 12) and always
+	// completes; passes 1.. add runs to the cases that want more (small inputs: up to 40 in quick)
+	// and are started only while the time box is open, so that quick stays within its budget on a
+	// loaded machine. The number of runs actually made is reported.
+	type job struct{ idx, pass, runs int }
+	var jobList []job
+	const chunk = 12
+	for i, c := range cases {
+		jobList = append(jobList, job{i, 0, min(c.Runs, chunk)})
+	}
+	for pass := 1; pass*chunk < 100; pass++ {
+		for i, c := range cases {
+			if rest := c.Runs - pass*chunk; rest > 0 {
+				jobList = append(jobList, job{i, pass, min(rest, chunk)})
+			}
+		}
+	}
+	deadline := time.Now().Add(time.Duration(ctx.N(32, 600)) * time.Second)
+	var skipped atomic.Int64
 	var wg sync.WaitGroup
-	jobs := make(chan int)
+	jobs := make(chan job)
 	workers := runtime.NumCPU()
 	if workers > 16 {
 		workers = 16
@@ -1134,17 +1248,28 @@ func run(ctx *Ctx) *Result {
 		wg.Add(1)
 		go func() {
 			defer wg.Done()
-			for i := range jobs {
-				d, c := runCase(drc, base, i, cases[i])
-				outs[i] = outcome{d, c}
+			for j := range jobs {
+				if j.pass > 0 && ctx.Replay == "" && time.Now().After(deadline) {
+					skipped.Add(int64(j.runs))
+					continue
+				}
+				d, c := runCaseN(drc, base, j.idx, j.pass, j.runs, cases[j.idx])
+				merge(j.idx, d, c, j.runs)
 			}
 		}()
 	}
-	for i := range cases {
-		jobs <- i
+	for _, j := range jobList {
+		jobs <- j
 	}
 	close(jobs)
 	wg.Wait()
+	for i, c := range cases {
+		c.Runs = outs[i].runs
+	}
+	if n := skipped.Load(); n > 0 {
+		res.CountN("runs-skipped-time-box", int(n))
+		res.Notes = append(res.Notes, fmt.Sprintf("time box closed: %d of the extra runs on small inputs were not made (every input got its first %d runs)", n, chunk))
+	}
 
 	drv := ctx.StartNadrv("c16")
 	defer drv.Close()
@@ -1154,7 +1279,7 @@ func run(ctx *Ctx) *Result {
 			res.Count("inconclusive:no-run-could-be-started")
 			continue
 		}
-		canonIn := JSONStr(c.Files) + strings.Join(c.Args, " ")
+		canonIn := JSONStr(c.Files) + strings.Join(c.Args, " ") + c.Session + fmt.Sprint(c.Approve)
 		seedInput := strings.HasPrefix(c.Family, "seed_")
 		res.Eval(canonIn, c.Ties >= 2 || seedInput && (o.distinct[0].Stdout != "" || o.distinct[0].Exit != 0))
 		res.Count("family:" + c.Family)
@@ -1199,11 +1324,37 @@ func run(ctx *Ctx) *Result {
 	}
 	separationPass(res, cases)
 	if ctx.Replay == "" {
-		res.Notes = append(res.Notes, fmt.Sprintf("%d inputs x %d runs of the real drc (fresh processes)", len(cases), runs))
+		res.Notes = append(res.Notes, fmt.Sprintf("%d inputs, %d runs of the real drc in fresh processes (6 to 40 per input in quick, by size; see runsFor)", len(cases), res.Distribution["process_runs"]))
 	}
 	res.Assumptions = append(res.Assumptions,
 		"drc FILE1 FILE2 (compare of two files) exercises parser, merge of raw/IPv6 parts and the diff engines; the session layer (approve on a device) adds no map iteration (translator: every range over a map in go/pkg is listed)")
 	return res
+}
+
+// runsFor: many processes on the cheap small inputs, few on the large ones. A two-way tie in a map
+// of at most 8 entries shows the minority order in 1 of 8 processes if the tied entries are adjacent
+// (escape probability (7/8)^N: 20 % for N = 12, 0.5 % for N = 40) and in 1 of 2 if they are spaced
+// (arrange): the small generated inputs get 40 runs, session runs (a dialogue with a simulator) 6.
+func runsFor(ctx *Ctx, c *Case) int {
+	size := 0
+	for _, f := range c.Files {
+		size += len(f)
+	}
+	size += len(c.Scenario)
+	var q, t int
+	switch {
+	case c.Session != "":
+		q, t = 6, 16
+	case size < 1500:
+		q, t = 40, 100
+	case size < 4000:
+		q, t = 24, 60
+	case size < 12000:
+		q, t = 12, 30
+	default:
+		q, t = 6, 12
+	}
+	return ctx.N(q, t)
 }
 
 func pick(r *RNG, l ...int) int { return l[r.Intn(len(l))] }
